@@ -118,6 +118,12 @@ CHECKS = {
             "(C07_parsed_default), the serializer emits exactly the explicit+property required names under JSON names (C03_*), keyword/signature tables agree with /repo.  "
             "The run decides idempotence on the implementation (J1 == J2 == J3 type-strictly, executed classes == parsed classes) and checks the parser model on the same documents.",
             "partial (ingredient theorems + pipeline oracle); K22 recorded"),
+    "C09": ("Coq theorems quantified over ALL set-enumeration orders (parser order-free, sorted() output order-free, refutation for set-typed iteration) + set-iteration sites of the whole package regenerated from /repo and checked against the audited ones + byte comparison across 8/32 fresh interpreters with different PYTHONHASHSEED",
+            "C09_order_free / C09_parse_order_free: the parser does not consult set order (proved from the iteration kind the translator reads from /repo: it fails when the "
+            "loop iterates a set again); C09_sorted_is_order_free: sorted() of any enumeration of the same set is the same list; C09_set_iteration_audited: every "
+            "order-exposing use of a set in the package is an audited harmless one.  The hash function and interpreter are runtime: 8 (quick) / 32 (thorough) "
+            "processes generate module text, JSON and class names for every document and must agree byte for byte.  Fix 95e6237.",
+            "partial by nature: all orders covered in the model; completeness of the scan and the runtime are trusted/sampled"),
 }
 
 REASONS_PENDING = "check under construction in this session: not yet claimed"
